@@ -236,6 +236,8 @@ def hostFromLines : List Bytes → Except Err Bytes
   | [] => .error .notFound
   | line :: rest =>
     if line = [] then .error .notFound
+    -- a line that begins with SP / HT continues the previous header (obs-fold): never a header itself
+    else if line.head? = some 32 ∨ line.head? = some 9 then hostFromLines rest
     else match cutByte 58 line with
       | none => hostFromLines rest
       | some (k, v) =>
@@ -263,7 +265,8 @@ def sniffHttp (buf : Bytes) : Except Err Bytes :=
     else match cutByte 32 (buf.take 12) with
       | none => .error .notApplicable
       | some (m, _) =>
-        if httpMethods.contains m then sniffHTTPHostHeader buf else .error .notApplicable
+        -- only the complete (CRLF-terminated) lines of what has been read are examined (fix6)
+        if httpMethods.contains m then hostFromLines (splitLines buf).dropLast else .error .notApplicable
 
 /-! ## `NormalizeDomain` (`sniffing.go`) with `net.SplitHostPort` -/
 
@@ -604,7 +607,7 @@ def Pkt.sniffUdp (oracle : List Sealed) (s : Pkt) : Except Err Bytes × Pkt :=
       | .ok d => (.ok (normalizeDomain d), { s' with sniffed := normalizeDomain d })
 
 /-- `CompactPacketState`. -/
-def Pkt.compact (_s : Pkt) : Pkt := {}
+def Pkt.compact (s : Pkt) : Pkt := { sniffed := s.sniffed }
 
 /-! ### In-place header unprotection and its undo (`sniffQuicBlock`, the `defer`) -/
 
